@@ -35,7 +35,9 @@ def run(run):
         "persist / delayed / legacy conversion execute real graphs: observed; the proved part is congruence of the plan semantics (a sub-plan may be replaced by anything with the same value)",
     ]
     run.rule = ("generated programs (l1/l2/l3 profiles) x every intermediate frame/series variable as cut point x {persist, to_delayed->from_delayed (with and without divisions), legacy round trip, optimize-then-continue}: "
-                "the remaining operations are re-applied to the re-imported collection; final result, schema and (when both known) divisions vs the uncut run; non-trivial = cut strictly inside the program")
+                "the remaining operations are re-applied to the re-imported collection; final result, schema and (when both known) divisions vs the uncut run; non-trivial = cut strictly inside the program; "
+                "two-head queries (source layouts x dtypes x head pairs x index-aligned tails) cut in front of the binary step on the left, the right or both inputs "
+                "with equal or mixed kinds of cut, vs the uncut run (harness/c17_multi.py)")
     run.proofs("PropC17.v")
     quick = run.tier == "quick"
     n = 50 if quick else 1000
@@ -213,5 +215,8 @@ def run(run):
                             run.violation("%s: the re-imported collection reports %d partitions, its graph has %d" % (tagc, cutc[1].npartitions, nparts[1]), {"kind": "cut-parquet", "cut": cname, "head": hn})
     finally:
         shutil.rmtree(tmp, ignore_errors=True)
+    # cuts in front of a multi-input (index-aligned) step: on one input, on the other, on both; same or mixed kinds of cut
+    import c17_multi
+    c17_multi.run_family(run, rt, C)
     run.section("cuts", programs=n, cut_executions=ncut, node_kinds=kinds, cut_kinds=list(C), selection_continuations=nsel, parquet_cut_cases=npq, cut_together_cases=nshare)
     run.sample({"cut": "persist after step 1", "program": "v1=filter(t0,...); v2=assign(v1,...); v3=sum(v2)"})
